@@ -1,8 +1,8 @@
 #!/bin/bash
-# usage: confirm_seed.sh <seed_dir> <scratch_worktree>
+# usage: confirm_seed.sh <seed_dir> <scratch_worktree> [default_crate]
 # Confirms a seeded change in a scratch worktree: demo passes without the patch, fails with it,
 # and the existing workspace suite (demo excluded) passes with it.  Writes <seed_dir>/confirm.log
-S=$1; W=$2
+S=$1; W=$2; DC=${3:-anda_db}
 export CARGO_NET_OFFLINE=true CARGO_INCREMENTAL=0 CARGO_PROFILE_DEV_DEBUG=0 CARGO_PROFILE_TEST_DEBUG=0
 LOG=$S/confirm.log; : > $LOG
 cd $W && git checkout -q -- . && git clean -fdq rs
@@ -13,7 +13,7 @@ for f in $S/demo/*.rs; do
   case $b in
     btree_*) cp $f rs/anda_db_btree/tests/${b#btree_}; DEMOS="$DEMOS anda_db_btree:${b%.rs}";;
     collection_*) cp $f rs/anda_db/tests/${b#collection_}; DEMOS="$DEMOS anda_db:${b%.rs}";;
-    *) cp $f rs/anda_db/tests/$b; DEMOS="$DEMOS anda_db:${b%.rs}";;
+    *) cp $f rs/$DC/tests/$b; DEMOS="$DEMOS $DC:${b%.rs}";;
   esac
 done
 run_demos() { rc=0; for d in $DEMOS; do c=${d%%:*}; t=${d##*:}; t=${t#btree_}; t=${t#collection_}; timeout 1800 cargo test -p $c --offline --test $t >>$LOG 2>&1 || rc=1; done; return $rc; }
